@@ -65,10 +65,10 @@ for key, cls in commands.INDEX_MAPPING.items():
     except Exception as e:
         inst_vals = 'ERR ' + type(e).__name__
     out['methods'][str(key)] = {
-        'own_index': cls.index, 'method_id': cls.frame_id,
+        'own_index': getattr(cls, 'index', '<missing>'), 'method_id': getattr(cls, 'frame_id', '<missing>'),
         'class_id': getattr(outer, 'frame_id', None), 'class_index': getattr(outer, 'index', None),
-        'qualname': cls.__qualname__, 'name': cls.name, 'synchronous': cls.synchronous,
-        'replies': list(cls.valid_responses), 'argnames': list(cls.__slots__),
+        'qualname': cls.__qualname__, 'name': cls.name, 'synchronous': getattr(cls, 'synchronous', '<missing>'),
+        'replies': list(getattr(cls, 'valid_responses', ['<missing>'])), 'argnames': list(cls.__slots__),
         'attributes': list(cls.attributes()), 'annotations': [k for k in cls.__annotations__.keys() if not k.startswith('__')],
         'argtypes': [cls.amqp_type(a) for a in cls.__slots__], 'ctor_params': list(sig.parameters)[1:],
         'defaults': defaults, 'doc_defaults': [dd.get(a) for a in cls.__slots__],
